@@ -18,6 +18,9 @@ type Clause struct {
 	Text string
 	Ord  int // ordinal among clauses of same (Kind, Loop, Lit)
 	Pos  string
+	// Off: an auxiliary clause (loop invariant, loop assumption, hint) set aside for this run because it no longer
+	// binds or no longer holds; the proof must then succeed without it (see dropAuxiliary)
+	Off bool
 }
 
 // Contract is the //@ block of one function.
@@ -34,7 +37,7 @@ type Contract struct {
 
 func (c *Contract) Has(kind string, lit int) bool {
 	for _, cl := range c.Clauses {
-		if cl.Kind == kind && cl.Lit == lit {
+		if cl.Kind == kind && cl.Lit == lit && !cl.Off {
 			return true
 		}
 	}
@@ -47,7 +50,7 @@ func (c *Contract) Get(kind string, loop, lit int) []*Clause {
 		return nil
 	}
 	for _, cl := range c.Clauses {
-		if cl.Kind == kind && cl.Loop == loop && cl.Lit == lit {
+		if cl.Kind == kind && cl.Loop == loop && cl.Lit == lit && !cl.Off {
 			out = append(out, cl)
 		}
 	}
